@@ -378,6 +378,21 @@ def r_eigen_init(chk, units, scope):
                 init = it.get("init")
                 if init is not None and _size_only_ctor(u, init):
                     n_obj += 1
+                    # accepted: the constructor body initialises the member as a whole before anything else touches it
+                    fid = it.get("field")
+                    mention = lambda n_: any(m_["k"] == "MemberExpr" and m_.get("d") == fid for m_ in walk(n_))
+                    nxt = next((s_ for s_ in (kids(f.body) if f.body["k"] == "CompoundStmt" else [f.body])
+                                if s_ is not None and mention(s_)), None)
+                    if nxt is not None:
+                        x = strip(nxt) if nxt["k"] not in ("ForStmt", "CXXForRangeStmt", "WhileStmt") else None
+                        ci = call_info(u, x) if x is not None and x["k"] in CALL_KINDS else None
+                        if ci and ci.decl is not None and ci.decl["name"] in _WHOLE_INIT:
+                            recv = strip(ci.obj) if ci.obj is not None else (strip(ci.args[0]) if ci.args else None)
+                            if recv is not None and recv["k"] == "MemberExpr" and recv.get("d") == fid:
+                                continue
+                        if nxt["k"] in ("ForStmt", "CXXForRangeStmt") and not any(
+                                m_["k"] in _UNCOND_BREAKERS for m_ in walk(nxt)):
+                            continue
                     chk.bad(rule, f.where(), f.pqn, "size-only:%s" % it.get("name", "?"),
                             "member %s is an Eigen object constructed from its sizes only: its coefficients are "
                             "indeterminate until every one of them is written" % it.get("name", "?"),
